@@ -11,7 +11,7 @@ miss=0
 for s in $ids; do
   d=seeded/$s
   pid=$(python3 -c "import json,re;m=json.load(open('$d/meta.json'));print(re.search(r'vcheck.py (C\d\d)', m['detection']['check']).group(1))")
-  git -C $repo apply $PWD/$d/patch.diff 2>/dev/null || git -C $repo apply --3way $PWD/$d/patch.diff 2>/dev/null || { echo "$s APPLY-FAILED"; git -C $repo checkout -- . ; continue; }
+  git -C $repo apply $PWD/$d/patch.diff 2>/dev/null || git -C $repo apply --3way $PWD/$d/patch.diff 2>/dev/null || { echo "$s APPLY-FAILED"; git -C $repo reset -q --hard; continue; }
   out=$(VERIF_SEED=$seed VERIF_REPO=$repo /venv/bin/python vcheck.py $pid --tier quick 2>&1); rc=$?
   git -C $repo reset -q --hard
   if [ $rc -eq 1 ]; then echo "$s DETECTED by $pid (seed $seed) :: $(echo "$out" | grep -m1 violation-class)"; else echo "$s MISSED by $pid (seed $seed) rc=$rc :: $(echo "$out" | tail -1)"; miss=$((miss+1)); fi
